@@ -174,6 +174,85 @@ def rule_truncating_adaptors(ctx):
         ctx.report("cut:positive-control", "rules/positive/cut.rs", f"the positive control yields {got} sites instead of 4", {})
 
 
+SHRINKING = {"filter", "filter_map", "flatten", "flat_map", "skip", "take", "skip_while", "take_while", "map_while", "dedup", "chain", "step_by"}
+
+
+def _zip_sites(files):
+    out = []
+    for rel, f in sorted(files.items()):
+        for fn in A.functions(f):
+            if fn.block is None:
+                continue
+            for mc, _ in A.find(fn.block, "Expr::MethodCall"):
+                if mc["method"]["sym"] == "zip" and len(mc["args"]) == 1:
+                    out.append((f, fn, mc, mc["receiver"], mc["args"][0]))
+            for c, _ in A.find(fn.block, "Expr::Call"):
+                if A.kind(c["func"]) == "Expr::Path" and (A.path_str(c["func"]) or "").split("::")[-1] == "zip" and len(c["args"]) == 2:
+                    out.append((f, fn, c, c["args"][0], c["args"][1]))
+    return out
+
+
+def _zip_operand(fn, e, als):
+    """(root variable, first projected member or None, shrinking adaptors in the chain) of a zip operand, single-use
+    `let` aliases followed"""
+    e = A.peel(e)
+    while A.kind(e) in ("Expr::Reference", "Expr::Paren", "Expr::Group"):
+        e = A.peel(e["expr"])
+    root, ops = A.chain(e)
+    while A.kind(root) in ("Expr::Reference", "Expr::Paren", "Expr::Group"):
+        root = root["expr"]
+        root, ops2 = A.chain(root)
+        ops = ops + ops2
+    shr = [o[1] for o in ops if o[0] == "m" and o[1] in SHRINKING]
+    nm = A.path_str(root) if A.kind(root) == "Expr::Path" else None
+    fs = [str(o[1]) for o in ops if o[0] == "f"]
+    if nm in als and not fs:
+        r2, m2, s2 = _zip_operand(fn, als[nm][0], {k: v for k, v in als.items() if k != nm})
+        return r2, m2, s2 + shr
+    return nm, (fs[-1] if fs else None), shr
+
+
+def rule_zip_alignment(ctx):
+    """ZIP-ALIGN: two sequences that are zipped element by element are the same *view* of the input: (a) neither operand is a filtered / flattened / truncated form of a sequence (`fields.iter().enumerate().zip(attrs.into_iter().flatten())` pairs the k present attributes with the first k fields instead of the fields they were written on); (b) when both operands are members of a value (`variant_data.variant_states`, `variant_data.infos`) they are members of the *same* value - `state.variant_states` (all variants) zipped with `variant_data.infos` (enabled variants) shifts every variant after an ignored one."""
+    files = {rel: f for rel, f in ctx.files.items() if rel.startswith("impl/src/")}
+    n = 0
+    for f, fn, node, a, b in _zip_sites(files):
+        n += 1
+        als = A.aliases(fn)
+        ra, ma, sa = _zip_operand(fn, a, als)
+        rb, mb, sb = _zip_operand(fn, b, als)
+        key = f"zip:{f.rel}::{fn.qual}:{ra}.{ma}~{rb}.{mb}"
+        ctx.instance(key, sample={"site": f"{f.rel}::{fn.qual}", "left": A.render(a)[:80], "right": A.render(b)[:80]})
+        if sa or sb:
+            ctx.report(
+                key + ":shrunk",
+                ctx.where(f, node),
+                f"`{fn.qual}` zips `{A.render(a)[:70]}` with `{A.render(b)[:70]}`, one of which is filtered / flattened / truncated (`.{(sa or sb)[0]}(..)`): the pairs no longer line up position by position - "
+                "an attribute is applied to a field it was not written on",
+                {},
+            )
+        elif ma is not None and mb is not None and ra != rb and "self" not in (ra, rb):
+            ctx.report(
+                key + ":views",
+                ctx.where(f, node),
+                f"`{fn.qual}` zips `{A.render(a)[:70]}` with `{A.render(b)[:70]}`: members of two different values (`{ra}` / `{rb}`), i.e. two different views of the input (all vs enabled items): "
+                "after an ignored variant / field every later element is paired with its predecessor's data",
+                {},
+            )
+    ctx.floor("zip sites", n, 12)
+    pc = A.load_files([os.path.join(POS, "zip.rs")])
+    ctx.instance("zip:positive-control")
+    got = 0
+    for f, fn, node, a, b in _zip_sites(pc):
+        als = A.aliases(fn)
+        ra, ma, sa = _zip_operand(fn, a, als)
+        rb, mb, sb = _zip_operand(fn, b, als)
+        if sa or sb or (ma is not None and mb is not None and ra != rb and "self" not in (ra, rb)):
+            got += 1
+    if got != 2:
+        ctx.report("zip:positive-control", "rules/positive/zip.rs", f"the positive control yields {got} reports instead of 2", {})
+
+
 def _field_corr(files):
     n = 0
     out = []
